@@ -25,6 +25,7 @@ LEVEL = {p: "exploration" for p in CLAIMED}
 LEVEL["C19"] = "fault_enumeration"
 DEFAULT_SEED = {"quick": 20261003, "thorough": 7}
 BUDGET = {"quick": 40.0, "thorough": 600.0}
+RUN_LIMIT = {"quick": 120, "thorough": 240}     # wall limit of one simulated run, seconds
 
 
 # ----------------------------------------------------------------------
@@ -129,7 +130,7 @@ def one_run(args):
     # a single run that takes minutes (an astronomically symmetric or very
     # large graph on a loaded machine) is abandoned: it is not evidence either
     # way and is counted as such
-    res = isolated(_one_run, args, limit=120 if args[1] == "quick" else 400)
+    res = isolated(_one_run, args, limit=RUN_LIMIT[args[1]])
     if "harness_error" in res and "idx" not in res:
         if "HARNESS-TIMEOUT" in res["harness_error"]:
             return dict(idx=args[3], seed=f"{args[2]}/{args[0]}/{args[3]}", abandoned=True)
@@ -381,7 +382,7 @@ def main_check(prop, tier, base_seed, budget, max_runs, workers, verbose=False):
                 break
             done = []
             try:
-                for fut in as_completed(pending, timeout=max(5.0, deadline - time.time() + 120)):
+                for fut in as_completed(pending, timeout=max(5.0, deadline - time.time()) + RUN_LIMIT[tier] + 60):
                     done.append(fut)
                     break
             except Exception:  # noqa: BLE001  (timeout)
